@@ -434,7 +434,7 @@ pub fn run(cx: &mut Ctx) {
             check_content(c, name, &m, if cfg!(miri) { 4 } else { 40 });
         });
     }
-    let n = cx.a.n(40_000, 1_500_000);
+    let n = cx.a.n(200_000, 3_000_000);
     let big_every = 997;
     for i in 0..n {
         if !cx.next_is_mine() {
